@@ -5,7 +5,7 @@ Stage A  TLC: Representations.tla -- the product detector x entry point x contai
          ValuesPreserved, IndexCarried.
 Stage B  every grid point is replayed: the detector is driven through that entry point with that
          representation and, in parallel, with the canonical one (float64 DataFrame, default columns;
-         for `update` the same index labels); integer locations, labels, scores, fitted thresholds
+         for `update` the same rows at the same positions, appended and overlapping); integer locations, labels, scores, fitted thresholds
          and the index of dense outputs are compared.  The same for the interval scorers
          (fit / evaluate for array, Series, DataFrame input).
 """
@@ -134,54 +134,59 @@ def _replay_one(case, V, magtag):
         tag = {"detector": det, "params": repr(params)[:120], "entry": entry, "rep": [cont, dtype, idx, cols], "magnitude": magtag}
         if params.get("collective_penalty") == "intermediate" and p < 2:
             continue
-        canon_idx = idx if entry == "update" and cont in ("series", "frame") else "range0"
-        cA = represent(A, "frame", "float64", canon_idx, "default")
+        cA = represent(A, "frame", "float64", "range0", "default")
         rA = represent(A, cont, dtype, idx, cols)
+        for ov in ((0, 6) if entry == "update" and cont in ("series", "frame") else (0,)):
+            fails += _drive(cls, params, {**tag, **({"overlap": ov} if ov else {})}, entry, cont, dtype, idx, cols, cA, rA, B, ov)
+    return fails
+
+
+def _drive(cls, params, tag, entry, cont, dtype, idx, cols, cA, rA, B, ov):
+    """One detector, one entry point, one representation against the canonical one.  For `update` the new rows start
+    `ov` rows before the end of the fitted rows (ov > 0: re-sent rows are replaced, the rest appended); the canonical
+    run has the same rows at the same POSITIONS under the default range index."""
+    fails = []
+    try:
+        ref = cls(**params)
+        tst = cls(**params)
+        if entry == "fit":
+            ref.fit(cA)
+            tst.fit(rA)
+            outs = [(m, getattr(ref, m)(cA), getattr(tst, m)(cA)) for m in ("predict", "transform")]
+        elif entry == "update":
+            cB = represent(B, "frame", "float64", "range0", "default", start=N_ROWS - ov if cont in ("series", "frame") else 0)
+            rB = represent(B, cont, dtype, idx, cols, start=N_ROWS - ov)
+            ref.fit(cA).update(cB)
+            tst.fit(rA).update(rB)
+            outs = [(m, getattr(ref, m)(cA), getattr(tst, m)(cA)) for m in ("predict",)]
+        else:
+            ref.fit(cA)
+            tst.fit(cA)
+            if entry == "transform_scores" and not hasattr(cls, "_transform_scores") or \
+                    (entry == "transform_scores" and cls._transform_scores is __import__("skchange.base", fromlist=["BaseDetector"]).BaseDetector._transform_scores):
+                return fails
+            outs = [(entry, getattr(ref, entry)(cA), getattr(tst, entry)(rA))]
+    except Exception as e:
+        fails.append(("raises", {**tag, "error": repr(e)[:200]}))
+        return fails
+    for attr in ("threshold_", "penalty_", "collective_penalty_", "point_penalty_"):
+        if hasattr(ref, attr) and not close(float(getattr(ref, attr)), float(getattr(tst, attr))):
+            fails.append(("fitted_parameter_differs", {**tag, "attr": attr, "canonical": float(getattr(ref, attr)), "got": float(getattr(tst, attr))}))
+    # the public `scores` attribute written by predict (DP table / per-interval table) must agree as well
+    if entry in ("fit", "predict") and hasattr(ref, "scores") and hasattr(tst, "scores"):
         try:
-            ref = cls(**params)
-            tst = cls(**params)
-            if entry == "fit":
-                ref.fit(cA)
-                tst.fit(rA)
-                outs = [(m, getattr(ref, m)(cA), getattr(tst, m)(cA)) for m in ("predict", "transform")]
-            elif entry == "update":
-                cB = represent(B, "frame", "float64", canon_idx, "default", start=N_ROWS if cont in ("series", "frame") else 0)
-                rB = represent(B, cont, dtype, idx, cols, start=N_ROWS)
-                if cont in ("series", "frame"):
-                    refA = represent(A, "frame", "float64", canon_idx, "default")
-                else:
-                    refA = cA
-                ref.fit(refA).update(cB)
-                tst.fit(rA).update(rB)
-                outs = [(m, getattr(ref, m)(cA), getattr(tst, m)(cA)) for m in ("predict",)]
-            else:
-                ref.fit(cA)
-                tst.fit(cA)
-                if entry == "transform_scores" and not hasattr(cls, "_transform_scores") or \
-                        (entry == "transform_scores" and cls._transform_scores is __import__("skchange.base", fromlist=["BaseDetector"]).BaseDetector._transform_scores):
-                    continue
-                outs = [(entry, getattr(ref, entry)(cA), getattr(tst, entry)(rA))]
+            if not close(project(ref.scores), project(tst.scores)):
+                fails.append(("scores_attribute_differs_from_canonical_representation",
+                              {**tag, "canonical": str(project(ref.scores))[:200], "got": str(project(tst.scores))[:200]}))
         except Exception as e:
-            fails.append(("raises", {**tag, "error": repr(e)[:200]}))
-            continue
-        for attr in ("threshold_", "penalty_", "collective_penalty_", "point_penalty_"):
-            if hasattr(ref, attr) and not close(float(getattr(ref, attr)), float(getattr(tst, attr))):
-                fails.append(("fitted_parameter_differs", {**tag, "attr": attr, "canonical": float(getattr(ref, attr)), "got": float(getattr(tst, attr))}))
-        # the public `scores` attribute written by predict (DP table / per-interval table) must agree as well
-        if entry in ("fit", "predict") and hasattr(ref, "scores") and hasattr(tst, "scores"):
-            try:
-                if not close(project(ref.scores), project(tst.scores)):
-                    fails.append(("scores_attribute_differs_from_canonical_representation",
-                                  {**tag, "canonical": str(project(ref.scores))[:200], "got": str(project(tst.scores))[:200]}))
-            except Exception as e:
-                fails.append(("raises", {**tag, "error": "scores: " + repr(e)[:150]}))
-        for m, a, b in outs:
-            if not close(project(a), project(b)):
-                fails.append(("output_differs_from_canonical_representation", {**tag, "method": m, "canonical": str(project(a))[:200], "got": str(project(b))[:200]}))
-            elif m in ("transform", "transform_scores") and entry in ("transform", "transform_scores") and len(b) == N_ROWS:
-                want = expected_index(rA, cont, idx, 0, N_ROWS)
-                if not (type(b.index) is type(want) and b.index.equals(want)):
-                    fails.append(("dense_output_does_not_carry_the_input_index", {**tag, "method": m, "index": str(b.index)[:120]}))
+            fails.append(("raises", {**tag, "error": "scores: " + repr(e)[:150]}))
+    for m, a, b in outs:
+        if not close(project(a), project(b)):
+            fails.append(("output_differs_from_canonical_representation", {**tag, "method": m, "canonical": str(project(a))[:200], "got": str(project(b))[:200]}))
+        elif m in ("transform", "transform_scores") and entry in ("transform", "transform_scores") and len(b) == N_ROWS:
+            want = expected_index(rA, cont, idx, 0, N_ROWS)
+            if not (type(b.index) is type(want) and b.index.equals(want)):
+                fails.append(("dense_output_does_not_carry_the_input_index", {**tag, "method": m, "index": str(b.index)[:120]}))
     return fails
 
 
@@ -235,8 +240,9 @@ def run(tier: str) -> int:
                 "{integer, half-integer values} (2775 grid points from TLC, exhaustive), two parameter sets per detector; "
                 "plus 14 scorers (incl. fixed non-integer parameters) x the representation grid.  Non-trivial = the representation differs from the canonical "
                 "one in container, dtype, index or columns; distinct grid points.")
-    chk.assumptions = ["TLC/SANY and the Json module", "for `update` the canonical run uses the same index labels (update is defined "
-                       "through index labels); arrays are frames with the default index of the piece passed in",
+    chk.assumptions = ["TLC/SANY and the Json module", "`update` aligns on index labels: the canonical run has the same rows at the same positions under the "
+                       "default range index (pure append and a 6-row overlap); arrays are frames with the default index of "
+                       "the piece passed in",
                        "tolerance 1e-10 relative on scores"]
     with Workdir(PROP) as wd:
         cs = dict(N=4, Conv="code", Emit=False)
